@@ -83,7 +83,7 @@ var c06Wraps = []string{"group", "neg", "not", "binl", "binr", "bin-probe", "arr
 
 var c06Probes = []string{"input", "clock", "len"}
 
-var c06Enclosing = []string{"block", "if-then", "if-else", "while", "for", "func", "func-print", "func-var", "elseif"}
+var c06Enclosing = []string{"block", "if-then", "if-else", "while", "for", "func", "func-print", "func-var", "elseif", "while-true", "for-nocond", "func-cond", "func-arg", "func-whilecond", "func-rec"}
 
 type skBuilder struct {
 	n int
@@ -167,9 +167,17 @@ type skEmit struct {
 	strip     []string
 }
 
+// add appends one statement (possibly spanning several physical lines) and
+// returns the number of its first physical line.
 func (e *skEmit) add(ind int, s string) int {
-	e.lines = append(e.lines, strings.Repeat("  ", ind)+s)
-	return len(e.lines)
+	first := len(e.lines) + 1
+	for i, part := range strings.Split(s, "\n") {
+		if i == 0 {
+			part = strings.Repeat("  ", ind) + part
+		}
+		e.lines = append(e.lines, part)
+	}
+	return first
 }
 
 func (e *skEmit) emitAll(ns []*skNode, ind int) {
@@ -188,6 +196,36 @@ func (e *skEmit) emit(n *skNode, ind int) {
 		n.Line = e.add(ind, fmt.Sprintf("%s c%d = %s();", KwVar, n.Tag, FnClock))
 	case "builtin":
 		n.Line = e.add(ind, fmt.Sprintf("%s([1, 2]);", FnLen))
+	case "mlstring":
+		// a string literal that spans three source lines
+		n.Line = e.add(ind, fmt.Sprintf("%s \"m%d\nmid\nend%d\";", KwPrint, n.Tag, n.Tag))
+	case "mlcomment":
+		n.Line = e.add(ind, fmt.Sprintf("/* comment %d\n   * still / comment\n*/", n.Tag))
+	case "blank":
+		n.Line = e.add(ind, "")
+		e.add(ind, fmt.Sprintf("// line comment %d \"not a string", n.Tag))
+	case "whiletrue":
+		e.add(ind, fmt.Sprintf("%s w%d = 0;", KwVar, n.Tag))
+		e.add(ind, fmt.Sprintf("%s (%s) {", KwWhile, KwTrue))
+		e.add(ind+1, fmt.Sprintf("w%d = w%d + 1;", n.Tag, n.Tag))
+		e.emitAll(n.Kids, ind+1)
+		e.add(ind+1, fmt.Sprintf("%s (w%d >= %d) { %s; }", KwIf, n.Tag, n.Trips, KwBreak))
+		e.add(ind, "}")
+	case "fornocond":
+		e.add(ind, fmt.Sprintf("%s (%s f%d = 0; ; f%d = f%d + 1) {", KwFor, KwVar, n.Tag, n.Tag, n.Tag))
+		e.add(ind+1, fmt.Sprintf("%s (f%d >= %d) { %s; }", KwIf, n.Tag, n.Trips, KwBreak))
+		e.emitAll(n.Kids, ind+1)
+		e.add(ind, "}")
+	case "rec":
+		e.add(ind, fmt.Sprintf("%s %s(n) {", KwFun, n.Name))
+		e.add(ind+1, fmt.Sprintf("%s (n > 0) {", KwIf))
+		e.add(ind+2, fmt.Sprintf("%s(n - 1);", n.Name))
+		e.add(ind+2, fmt.Sprintf("%s \"unwind%d\";", KwPrint, n.Tag))
+		e.add(ind+1, fmt.Sprintf("} %s {", KwElse))
+		e.emitAll(n.Kids, ind+2)
+		e.add(ind+1, "}")
+		e.add(ind, "}")
+		n.Line = e.add(ind, fmt.Sprintf("%s(%d);", n.Name, n.Trips))
 	case "block":
 		e.add(ind, "{")
 		e.emitAll(n.Kids, ind+1)
@@ -240,6 +278,12 @@ func (e *skEmit) emit(n *skNode, ind int) {
 			n.Line = e.add(ind, fmt.Sprintf("%s %s();", KwPrint, n.Name))
 		case "var":
 			n.Line = e.add(ind, fmt.Sprintf("%s r%d = %s();", KwVar, n.Tag, n.Name))
+		case "cond":
+			n.Line = e.add(ind, fmt.Sprintf("%s (%s()) { %s \"cthen%d\"; } %s { %s \"celse%d\"; }", KwIf, n.Name, KwPrint, n.Tag, KwElse, KwPrint, n.Tag))
+		case "arg":
+			n.Line = e.add(ind, fmt.Sprintf("h2(h1(%s()), %d);", n.Name, n.Tag))
+		case "whilecond":
+			n.Line = e.add(ind, fmt.Sprintf("%s (%s()) { %s \"cnever%d\"; }", KwWhile, n.Name, KwPrint, n.Tag))
 		default:
 			n.Line = e.add(ind, n.Name+"();")
 		}
@@ -381,7 +425,14 @@ func (v *skEval) one(n *skNode) {
 			return
 		}
 		fmt.Fprintf(&v.out, "q%d[in%d]\n", n.Tag, v.inputs)
-	case "clock", "builtin", "decoy":
+	case "clock", "builtin", "decoy", "mlcomment", "blank":
+	case "mlstring":
+		fmt.Fprintf(&v.out, "m%d\nmid\nend%d\n", n.Tag, n.Tag)
+	case "rec":
+		v.run(n.Kids)
+		for i := 0; i < n.Trips && !v.faulted; i++ {
+			fmt.Fprintf(&v.out, "unwind%d\n", n.Tag)
+		}
 	case "block":
 		v.run(n.Kids)
 	case "if":
@@ -392,7 +443,7 @@ func (v *skEval) one(n *skNode) {
 		}
 	case "elseif":
 		v.run(n.Kids)
-	case "while", "for":
+	case "while", "for", "whiletrue", "fornocond":
 		for i := 0; i < n.Trips && !v.faulted; i++ {
 			v.run(n.Kids)
 		}
@@ -403,6 +454,9 @@ func (v *skEval) one(n *skNode) {
 		v.run(fn.Kids)
 		if !v.faulted && n.Style == "print" {
 			v.out.WriteString("nil\n")
+		}
+		if !v.faulted && n.Style == "cond" {
+			fmt.Fprintf(&v.out, "celse%d\n", n.Tag)
 		}
 	case "fault":
 		if v.twin {
@@ -438,11 +492,32 @@ func (b *skBuilder) filler(s Src, depth int, inFunc bool) []*skNode {
 }
 
 func (b *skBuilder) fillOne(s Src, depth int, inFunc bool) []*skNode {
-	max := 9
+	max := 14
 	if depth <= 0 {
-		max = 3
+		max = 6
 	}
-	switch s.Int("fill", 0, max) {
+	k := s.Int("fill", 0, max)
+	switch k {
+	case 4, 5, 6:
+		if k == 4 {
+			return []*skNode{{K: "mlstring", Tag: b.tag()}}
+		}
+		if k == 5 {
+			return []*skNode{{K: "mlcomment", Tag: b.tag()}}
+		}
+		return []*skNode{{K: "blank", Tag: b.tag()}}
+	case 12:
+		return []*skNode{{K: "whiletrue", Tag: b.tag(), Trips: s.Int("trips", 1, 3), Kids: b.filler(s, depth-1, inFunc)}}
+	case 13:
+		return []*skNode{{K: "fornocond", Tag: b.tag(), Trips: s.Int("trips", 0, 3), Kids: b.filler(s, depth-1, inFunc)}}
+	case 14:
+		t := b.tag()
+		return []*skNode{{K: "rec", Tag: t, Name: fmt.Sprintf("rec%d", t), Trips: s.Int("depth", 0, 2), Kids: b.filler(s, depth-1, true)}}
+	}
+	if k >= 7 {
+		k -= 3
+	}
+	switch k {
 	case 0, 1:
 		return []*skNode{{K: "trace", Tag: b.tag()}}
 	case 2:
@@ -467,7 +542,7 @@ func (b *skBuilder) fillOne(s Src, depth int, inFunc bool) []*skNode {
 		out := []*skNode{def}
 		calls := s.Int("ncalls", 0, 2)
 		for i := 0; i < calls; i++ {
-			out = append(out, &skNode{K: "call", Tag: b.tag(), Name: name, Style: Pick(s, "style", []string{"stmt", "print", "var"})})
+			out = append(out, &skNode{K: "call", Tag: b.tag(), Name: name, Style: Pick(s, "style", []string{"stmt", "print", "var", "cond", "arg", "whilecond"})})
 		}
 		return out
 	default:
@@ -494,9 +569,15 @@ func (b *skBuilder) wrapIn(s Src, enc string, inner []*skNode, depth int, inFunc
 		return []*skNode{{K: "while", Tag: t, Trips: s.Int("trips", 1, 3), Kids: body}}
 	case "for":
 		return []*skNode{{K: "for", Tag: t, Trips: s.Int("trips", 1, 3), Kids: body}}
-	default: // func, func-print, func-var
+	case "while-true":
+		return []*skNode{{K: "whiletrue", Tag: t, Trips: s.Int("trips", 1, 3), Kids: body}}
+	case "for-nocond":
+		return []*skNode{{K: "fornocond", Tag: t, Trips: s.Int("trips", 1, 3), Kids: body}}
+	case "func-rec":
+		return []*skNode{{K: "rec", Tag: t, Name: fmt.Sprintf("rec%d", t), Trips: s.Int("depth", 1, 3), Kids: body}}
+	default: // func, func-print, func-var, func-cond, func-arg, func-whilecond
 		name := fmt.Sprintf("fn%d", t)
-		style := map[string]string{"func": "stmt", "func-print": "print", "func-var": "var"}[enc]
+		style := map[string]string{"func": "stmt", "func-print": "print", "func-var": "var", "func-cond": "cond", "func-arg": "arg", "func-whilecond": "whilecond"}[enc]
 		return []*skNode{
 			{K: "funcdef", Tag: t, Name: name, Kids: body},
 			{K: "call", Tag: b.tag(), Name: name, Style: style},
@@ -533,7 +614,7 @@ func c06DrawFault(s Src, chain []string) skFault {
 		if strings.HasPrefix(c, "func") {
 			inFunc = true
 		}
-		if c == "while" || c == "for" {
+		if c == "while" || c == "for" || c == "while-true" || c == "for-nocond" {
 			inLoop = true
 		}
 	}
@@ -713,7 +794,7 @@ func c06Systematic(tier string) []*Case {
 	// every expression fault kind x every wrapper x probe kind, at top level and in a loop / function
 	for i, fk := range c06ExprFaults {
 		for j, w := range c06Wraps {
-			for _, enc := range []string{"", "while", "func-print"} {
+			for _, enc := range []string{"", "while", "func-print", "while-true", "func-rec"} {
 				plan := c06Plan{fault: skFault{Kind: fk.name, Expr: fk.expr, Ctx: []string{"print", "expr", "var"}[(i+j)%3], Wraps: []string{w}, Probe: c06Probes[(i+j)%3]}}
 				if enc != "" {
 					plan.chain = []string{enc}
@@ -726,7 +807,7 @@ func c06Systematic(tier string) []*Case {
 	for _, st := range c06StmtFaults {
 		for _, enc := range encl {
 			stray := st != "redecl" && st != "redecl-list"
-			if stray && (enc == "while" || enc == "for" || strings.HasPrefix(enc, "func")) {
+			if stray && (enc == "while" || enc == "for" || enc == "while-true" || enc == "for-nocond" || strings.HasPrefix(enc, "func")) {
 				continue
 			}
 			plan := c06Plan{fault: skFault{Kind: "stmt-" + st, Stmt: st}}
@@ -735,6 +816,20 @@ func c06Systematic(tier string) []*Case {
 			}
 			out = append(out, c06Case(plan, zeroSrc{}, 0, "table:stmt"))
 		}
+	}
+	// programs that perform no invalid operation: no diagnostic, status 0
+	for name, prog := range map[string]string{
+		"empty": "", "newline": "\n", "blank-lines": "\n\n   \n", "line-comment": "// nothing here\n", "block-comment": "/* nothing\n here */\n",
+		"only-functions": fmt.Sprintf("%s f() { %s nx; }\n%s g(a) { %s a / 0; }\n", KwFun, KwPrint, KwFun, KwReturn),
+		"empty-block": "{ }\n", "dead-fault": fmt.Sprintf("%s (%s) { %s nx; }\n%s \"ok\";\n", KwIf, KwFalse, KwPrint, KwPrint),
+		"short-circuit": fmt.Sprintf("%s %s %s nx;\n%s %s %s nx;\n", KwPrint, KwTrue, KwOr, KwPrint, KwFalse, KwAnd),
+		"zero-trip-loops": fmt.Sprintf("%s (%s) { %s nx; }\n%s (%s i = 0; i < 0; i = i + 1) { nx; }\n%s \"ok\";\n", KwWhile, KwFalse, KwPrint, KwFor, KwVar, KwPrint),
+	} {
+		want := map[string]string{"dead-fault": "ok\n", "short-circuit": "true\nfalse\n", "zero-trip-loops": "ok\n"}[name]
+		cs := &Case{Prop: "C06", Kind: "clean", Sig: "clean:" + name, Program: prog, FaultKind: "none", Runs: []Run{{Role: "clean", Cfg: scriptCfg(prog, "")}}}
+		cs.ExpectStdout = ptrS(want)
+		cs.Aux = &Aux{C06: &C06Expect{}}
+		out = append(out, cs)
 	}
 	// decoy and second fault
 	for _, fk := range c06ExprFaults[:6] {
@@ -804,7 +899,7 @@ func init() {
 		Level:       "fault_enumeration",
 		Systematic:  c06Systematic,
 		Random:      c06Random,
-		RandomCount: func(tier string) int { return map[string]int{"quick": 4000, "thorough": 400000}[tier] },
+		RandomCount: func(tier string) int { return map[string]int{"quick": 4000, "thorough": 1500000}[tier] },
 		Eval:        c06Eval,
 		Rule: "fault enumeration: one runtime fault of each kind (28 expression kinds, 6 statement kinds) planted at every statement context (12) x every enclosing construct (9) and under every expression wrapper (25) x probe kind, swept completely each run; plus seeded random programs nesting the fault <= 4 constructs deep between random effectful statements, with decoy faults in dead code and second faults later in the text; plus environment-injected faults (the j-th dynamic ইনপুট call hits EOF/EIO). Each program also runs as its fault-free twin. " +
 			"distinct_nontrivial counts distinct (fault kind, chain of enclosing constructs, statement context, wrappers, probe kind) signatures whose program executed the fault with at least one effectful statement after it.",
@@ -856,6 +951,20 @@ func c06Eval(cs *Case, ctx *EvalCtx) []Violation {
 				return
 			}
 		}
+	}
+	if cs.Kind == "clean" {
+		o := obs[0]
+		switch {
+		case o.Res.Panic != "":
+			add(0, "host-panic", o.Res.Panic)
+		case o.Res.Budget:
+			add(0, "no-termination", "step budget exceeded")
+		case o.FirstErr >= 0 || o.ExitStatus() != 0:
+			add(0, "clean-program-diagnostic", fmt.Sprintf("a program that performs no invalid operation wrote %q / exit %d", o.Stderr, o.ExitStatus()))
+		case o.Stdout != *cs.ExpectStdout:
+			add(0, "clean-program-stdout", fmt.Sprintf("stdout=%q expected %q", o.Stdout, *cs.ExpectStdout))
+		}
+		return vs
 	}
 	if cs.Kind == "env" {
 		o := obs[0]
